@@ -889,6 +889,12 @@ class Interp:
         except _SymComp as sc:
             # [elt(i) for i in range(a, b)] with a symbolic bound: a list given by its closed form
             if len(gens) != 1 or gens[0].ifs or sc.rng.step != 1 or not isinstance(gens[0].target, ast.Name):
+                # a sidecar contract may describe this comprehension (keyed like a loop rule: (qualname, "comp", ordinal in the function))
+                if fr.fn is not None:
+                    comps = sorted((n for n in ast.walk(fr.fn.node) if isinstance(n, (ast.ListComp, ast.GeneratorExp))), key=lambda n: (n.lineno, n.col_offset))
+                    crule = self.loop_rules.get((fr.fn.qualname, "comp", comps.index(e))) if e in comps else None
+                    if crule is not None:
+                        return crule(self, e, fr)
                 raise OutOfReach("comprehension over a symbolic range (only the plain one-generator form is modelled)")
             from .values import SymList
             g = gens[0]
